@@ -280,6 +280,69 @@ fn c09_scenario(rep: &Reporter, sc: &Scenario, tier: Tier, stats: &C09Stats, sam
             rep.report("go_after_interruptions_scores_differently_from_fresh_engine".to_string(), case(json!({"score": format!("{:?}", again.score), "fresh": format!("{:?}", fresh1.score)})));
         }
     });
+    // (6) earlier in the session, commands that belong to the idle state (position, go) arrived WHILE a
+    // search was running. What the engine does with them then is its own business; but afterwards
+    // the position given while idle is the position, however many searches follow.
+    {
+        let other = "position fen 4k3/8/8/8/8/8/4P3/4K3 w - - 0 1";
+        let strays: [Vec<GateAction>; 3] = [
+            vec![GateAction::Line(other.to_string())],
+            vec![GateAction::Line("go depth 1".to_string()), GateAction::IsReady],
+            vec![GateAction::Line(format!("{} moves e2e4", other)), GateAction::Line("go infinite".to_string())],
+        ];
+        let g6 = if tier == Tier::Quick { 4 } else { 12 };
+        let grid6: Vec<u64> = (0..g6).map(|i| 1 + i * (k_max.max(1) - 1) / (g6 - 1).max(1)).collect();
+        let jobs6: Vec<(usize, u64)> = (0..strays.len()).flat_map(|si| grid6.iter().map(move |&k| (si, k))).collect();
+        par_map_fine(&jobs6, |&(si, k)| {
+            stats.runs.fetch_add(1, Ordering::Relaxed);
+            let case = |extra: Value| json!({"kind": "interrupt_after_stray", "position": pos_line, "depth": sc.depth, "stray_commands_during_an_earlier_search": format!("{:?}", strays[si]), "stray_index": si, "poll_index": k, "detail": extra});
+            let mut s = Session::new(false);
+            s.line("position startpos moves d2d4 d7d5");
+            let stray = strays[si].clone();
+            let warm = run_go(&mut s, "go depth 3", Plan { poll: Some((1, 1)), clock: Clock::Rate { ns_per_node: 0, jumps: vec![] }, gates: vec![5] }, &move |kk| if kk == 5 { stray.clone() } else { vec![] });
+            if warm.problem.is_some() || warm.n_best != 1 {
+                rep.report("search_with_stray_commands_gives_no_single_answer".to_string(), case(json!({"problem": warm.problem, "bestmoves": warm.n_best})));
+                s.quit();
+                return;
+            }
+            let _ = s.settle(Duration::from_millis(2));
+            // two rounds: the given position must stay the position after EVERY later search
+            for round in 0..2 {
+                if round == 0 {
+                    s.line(&pos_line);
+                }
+                let out = run_go(&mut s, &format!("go depth {}", sc.depth), Plan { poll: Some((1, n2)), clock: Clock::Rate { ns_per_node: 0, jumps: vec![] }, gates: vec![k] }, &|kk| if kk == k { vec![GateAction::Stop] } else { vec![] });
+                if out.problem.is_some() || out.n_best != 1 {
+                    rep.report("interrupted_search_gives_no_single_answer:after_stray_commands".to_string(), case(json!({"round": round, "problem": out.problem, "bestmoves": out.n_best})));
+                    break;
+                }
+                match &out.best {
+                    Some(b) if legal.contains(b) => {}
+                    other => {
+                        rep.report("interrupted_search_plays_illegal_or_null_move:after_stray_commands".to_string(), case(json!({"round": round, "bestmove": other})));
+                        break;
+                    }
+                }
+                let again = run_go(&mut s, "go depth 1", Plan::virtual_rate(0), &none);
+                if let Some(pr) = &again.problem {
+                    rep.report(format!("go_after_interruption_gives_no_answer:{}", short(pr)), case(json!({"round": round, "problem": pr})));
+                    break;
+                }
+                match &again.best {
+                    Some(b) if legal.contains(b) => {}
+                    other => {
+                        rep.report("go_after_interruption_plays_illegal_or_null_move:after_stray_commands".to_string(), case(json!({"round": round, "bestmove": other, "legal_moves": legal})));
+                        break;
+                    }
+                }
+                if again.score != fresh1.score {
+                    rep.report("go_after_interruption_scores_differently_from_fresh_engine:after_stray_commands".to_string(), case(json!({"round": round, "score": format!("{:?}", again.score), "fresh": format!("{:?}", fresh1.score)})));
+                    break;
+                }
+            }
+            s.quit();
+        });
+    }
     // (5) messages that arrive at a clock read instead of a poll, one second or more into the search.
     // Every clock read of the search thread is the other place where it can be observed (and where
     // product code may look at the command channel): park there, deliver the stop, go on.
@@ -448,6 +511,39 @@ pub fn replay_c09(case: &Value) -> i32 {
     let rep = Reporter::new("C09");
     let pos_line = case["position"].as_str().unwrap_or("position startpos").to_string();
     let depth = case["depth"].as_u64().unwrap_or(3) as usize;
+    if case["kind"] == "interrupt_after_stray" {
+        let other = "position fen 4k3/8/8/8/8/8/4P3/4K3 w - - 0 1";
+        let stray: Vec<GateAction> = match case["stray_index"].as_u64().unwrap_or(0) {
+            0 => vec![GateAction::Line(other.to_string())],
+            1 => vec![GateAction::Line("go depth 1".to_string()), GateAction::IsReady],
+            _ => vec![GateAction::Line(format!("{} moves e2e4", other)), GateAction::Line("go infinite".to_string())],
+        };
+        let k = case["poll_index"].as_u64().unwrap_or(1);
+        let (n2, _) = dry_run(&pos_line, "go depth 2");
+        let (_, fresh1) = dry_run(&pos_line, "go depth 1");
+        let mut s = Session::new(false);
+        s.line("position startpos moves d2d4 d7d5");
+        let st = stray.clone();
+        let _ = run_go(&mut s, "go depth 3", Plan { poll: Some((1, 1)), clock: Clock::Rate { ns_per_node: 0, jumps: vec![] }, gates: vec![5] }, &move |kk| if kk == 5 { st.clone() } else { vec![] });
+        let _ = s.settle(Duration::from_millis(2));
+        for round in 0..2 {
+            if round == 0 {
+                s.line(&pos_line);
+            }
+            let out = run_go(&mut s, &format!("go depth {}", depth), Plan { poll: Some((1, n2)), clock: Clock::Rate { ns_per_node: 0, jumps: vec![] }, gates: vec![k] }, &|kk| if kk == k { vec![GateAction::Stop] } else { vec![] });
+            let again = run_go(&mut s, "go depth 1", Plan::virtual_rate(0), &none);
+            println!("round {}: interrupted go -> {:?}; go depth 1 without position -> {:?} {:?}; fresh engine on the given position: {:?} {:?}", round, out.best, again.best, again.score, fresh1.best, fresh1.score);
+            if again.score != fresh1.score {
+                rep.report("go_after_interruption_scores_differently_from_fresh_engine:after_stray_commands".to_string(), json!({"kind": "interrupt_after_stray", "position": pos_line, "depth": depth, "stray_index": case["stray_index"], "poll_index": k, "round": round}));
+                break;
+            }
+        }
+        s.quit();
+        println!("replay: {} violating case(s) reproduced", rep.violation_count());
+        let mut cov = Coverage::new();
+        cov.states = 1;
+        return finish(&rep, Tier::Quick, cov, started);
+    }
     let k = case["poll_index"].as_u64().or_else(|| case["poll_indices"][0].as_u64()).unwrap_or(1);
     let real = case["kind"] == "interrupt_real_interval";
     let at_read = case["kind"] == "interrupt_at_read";
